@@ -8,12 +8,39 @@ import (
 )
 
 type (
-	Once   = sync.Once
 	Pool   = sync.Pool
 	Map    = sync.Map
 	Locker = sync.Locker
 	Cond   = sync.Cond
 )
+
+// Once: sync.Once keeps a real mutex locked while f runs; f contains scheduling points in rewritten code, so a second
+// virtual thread calling Do would block its OS thread on that mutex while it is the running thread of the cooperative
+// scheduler - the simulation would hang. This Once waits cooperatively instead.
+type Once struct {
+	o       sync.Once
+	state   int32 // 0 not started, 1 running, 2 done (only used under the scheduler: one thread runs at a time)
+}
+
+func (o *Once) Do(f func()) {
+	if !vsched.Controlled() {
+		o.o.Do(f)
+		return
+	}
+	vsched.Point("once.do")
+	switch o.state {
+	case 2:
+		return
+	case 1:
+		for o.state != 2 {
+			vsched.BlockYield()
+		}
+		return
+	}
+	o.state = 1
+	defer func() { o.state = 2 }()
+	f()
+}
 
 type Mutex struct{ m sync.Mutex }
 
